@@ -458,3 +458,7 @@ func checkC16Srv(t *testing.T, c C16SrvCase) *stats.Verdict {
 func TestC16Server(t *testing.T) {
 	stats.Run(t, stats.Prop[C16SrvCase]{ID: "C16", Rule: ruleC16b, Gen: genC16Srv, Check: checkC16Srv})
 }
+
+func FuzzC16(f *testing.F) {
+	stats.Fuzz(f, stats.Prop[C16Case]{ID: "C16", Rule: ruleC16a, Gen: genC16, Check: checkC16})
+}
